@@ -124,6 +124,7 @@ type Machine struct {
 	appendDepth                      int
 	SymFrom, SymTo                   int    // steps [SymFrom,SymTo) choose the move by a solver variable, the others follow Policy
 	Policy                           string // baseline scheduling policy
+	PollMiss                         bool   // offer "select default although a partner waits" alternatives (see enumerate)
 	Progress                         func(step, enumerated, live, alts, gors int)
 	textIDs                          map[string]int64
 	rangeStates                      map[*Object]*rangeState
